@@ -296,3 +296,60 @@ def cache_tasks(tier, role):
                               (c['cached'], c['nl'], c['nr'], c['rounds'], c['max_len'], c['max_len'][0]), role=role,
                        opts={'covers': ['replayed']}, budget=300))
     return ts
+
+
+# ------------------------------------------------------------------------------------ merge (C09)
+
+def merge_harness(w, nl, nr, iters, max_len, cut='each'):
+    """Stream::merge = binary Start (no cache) + the real filter_map closure of merge()"""
+    multiple = w.impls[(None, 'Start')]['multiple'][0]
+    fm_new = w.impls[(None, 'FilterMap')]['new'][0]
+    setup = w.impls[('Operator', 'FilterMap')]['setup'][0]
+    nxt = w.impls[('Operator', 'FilterMap')]['next'][0]
+    clo = [f for f in w.prog.functions if f.name.endswith('::merge::{closure#0}') and 'merge.rs' in f.name]
+    if len(clo) != 1:
+        raise Unsupported('merge closure not found')
+    import re
+    cname = re.search(r'_1: (?:&mut |&)?(\{closure@[^}]*\})', clo[0].header).group(1)
+    hlib.check_se_table(w)
+
+    def h(ex):
+        sl = gen_side(ex, nl, iters, max_len, 'I', 1, 'l')
+        sr = gen_side(ex, nr, iters, max_len, 'I', 2, 'r')
+        st = ex.call_function(multiple, [Int('u64', 1), Int('u64', 2), False, False, none()])
+        op = ex.call_function(fm_new, [st, Agg('closure', cname, [], [])])
+        holder = [op]
+        net = binary_setup(ex, w, holder, setup, nl, nr, sl, sr, cut)
+        total = sum(len(s) for s in sl + sr)
+        out = hlib.drive(ex, nxt, holder, 2 * total + 8)
+        sx = lambda: {'left': [[repr(e) for e in s] for s in sl], 'right': [[repr(e) for e in s] for s in sr],
+                      'output': [repr(e) for e in out]}
+        hlib.check_grammar(ex, out, iters, 'merge output')
+        outs = hlib.split_iterations(out)
+        for k in range(iters):
+            got = []
+            for e in outs[k]:
+                if e.variant != 'Item' or not isinstance(e.fields[0], Int):
+                    raise Violation('merge leaked a non-data element (%r)' % (e,), hlib._wit(ex), sx())
+                got.append(e.fields[0].v)
+            want = sorted(e.fields[0].v for s in sl + sr for e in hlib.split_iterations(s)[k] if e.variant == 'Item')
+            if sorted(got) != want:
+                raise Violation('merge output is not the multiset union of its inputs', hlib._wit(ex), sx())
+            for s in sl + sr:
+                ids = [e.fields[0].v for e in hlib.split_iterations(s)[k] if e.variant == 'Item']
+                if [x for x in got if x in ids] != ids:
+                    raise Violation('merge reordered the elements of one producer', hlib._wit(ex), sx())
+            if len(got) > 1:
+                hlib.cover(ex, 'merged')
+        return sx()
+    return h
+
+
+def merge_tasks(tier, role):
+    cfgs = [dict(nl=1, nr=1, iters=2, max_len=[2, 1]), dict(nl=2, nr=1, iters=1, max_len=[1])]
+    if tier != 'quick':
+        cfgs += [dict(nl=1, nr=1, iters=2, max_len=[3, 2]), dict(nl=2, nr=2, iters=1, max_len=[1])]
+    return [Task('merge_%dx%d_i%d' % (c['nl'], c['nr'], c['iters']), 'merge_harness', c,
+                 bounds='merge = Start<BinaryStartReceiver> + the filter_map closure of Stream::merge: %d + %d producers, %d '
+                        'iteration(s) x <=%s items, every arrival interleaving' % (c['nl'], c['nr'], c['iters'], c['max_len']),
+                 role=role, opts={'covers': ['merged']}, budget=300) for c in cfgs]
